@@ -997,6 +997,26 @@ func runC03(o *Out, r *rand.Rand, thorough bool, _ []string) {
 	o.Case(fmt.Sprintf("consts epochSize=%d merge=%d shanghai=%d cancun=%d capellaForkEpoch=%d slotsPerEpoch=%d historyEpochSize=%d preMergeEpochs=%d embeddedEpochs=%d embeddedRoots=%d",
 		kc["epochSize"], thistory.MergeBlockNumber, thistory.ShanghaiBlockNumber, thistory.CancunNumber, kc["capellaForkEpoch"], kc["slotsPerEpoch"], uint64(thistory.EpochSize),
 		uint64(thistory.PreMergeEpochs), len(defEpochs), len(defRoots)), "ok")
+	// every validator of a process consults the SAME embedded tables: the constructors are called again (a node builds one
+	// validator per sub-network, tests build many) and what they return is what the first call returned - a table that grew
+	// would put positions beyond the genuine table within range
+	{
+		same := 1
+		for k := 0; k < 3; k++ {
+			r2 := []zcommon.Root(validation.DefaultHistoricalRootsAccumulator().HistoricalRoots)
+			e2 := validation.DefaultPreMergeAccumulator().HistoricalEpochs
+			if len(r2) != len(defRoots) || len(e2) != len(defEpochs) {
+				same = 0
+				continue
+			}
+			for i := range r2 {
+				if r2[i] != defRoots[i] {
+					same = 0
+				}
+			}
+		}
+		o.Case(fmt.Sprintf("embeddedagain calls=3 roots=%d epochs=%d", len(defRoots), len(defEpochs)), fmt.Sprintf("same=%d", same))
+	}
 	// history.Accumulator.Update accepts pre-merge headers only
 	for _, n := range []uint64{0, thistory.MergeBlockNumber - 1, thistory.MergeBlockNumber, thistory.MergeBlockNumber + 1, 1 << 62} {
 		h := c03Header(r, n)
